@@ -12,6 +12,7 @@ open SophiaProofs.C10
 #print axioms clone_independent_run
 #print axioms derive_clone_dangles
 #print axioms derive_not_safe
+#print axioms no_dangling_partial
 #print axioms c10_holds
 #print axioms c10_verdict
 #print axioms unwrap_unchecked_safe
